@@ -90,6 +90,16 @@ P = {
          "Generated traits (1-4 methods over StableAbi leaf types and the auto-wrapped shapes) and groups over them; each pair differs by exactly one edit (add/remove/rename/reorder method, argument/return type, receiver, int_result, add/remove argument, add/remove optional trait, mandatory/optional swap, or a C-neutral edit). Both sides live in separate modules of one crate; the Box and ArcBox opaque object/group types are compared: identical or order-permuted definitions must be Valid, C-visible edits must not be Valid, a missing description must be Unknown, a type against itself Valid; C-neutral edits carry no requirement. The 9 ordered pairs of `and` and the strict/relaxed predicates are enumerated.",
          "the expected verdict comes from the generator's own model of the C-visible signature",
          "DESIGN.md 4/C20"),
+ "C17": (True, "hdr",
+         "model-based generation of cbindgen-shaped headers + execution of the post-processed header against mock vtables (differential vs the model)",
+         "Generated API models are rendered in cbindgen's C output shape, post-processed by /repo's cglue-bindgen (stub cbindgen on PATH), and a generated C driver calls every wrapper offered for every vtable entry of every object/group instantiation with distinctive arguments against mock vtables that record (slot, container, arguments) and mock box/arc functions that count: right slot, object's own container, arguments unchanged and in order, scripted return value back; consuming entries and drop helpers release instance and context once and hold a context clone across the call. Three genuine defects of the C generator are modelled as known findings. C mode only (see DESIGN.md for the C++ gap).",
+         "cbindgen is not installed: the raw headers are an emulation restricted to concrete item shapes that occur verbatim in examples/pregen-headers/bindings.h; gcc -O0",
+         "DESIGN.md 4/C17"),
+ "C18": (True, "hdr",
+         "generated headers + generated argv vectors; oracles: two C compilers, byte equality over fresh processes, subsequence of foreign declarations, recording stub for the argv contract",
+         "Same header space with user declarations (some named like CGlue patterns) interleaved at generated positions: gcc and clang -std=c99 accept the output standalone; 5 runs in fresh processes are byte-identical; every foreign declaration is kept verbatim and in order; generated argument vectors (config before `--`, +nightly, -o/--output at any position or absent, arbitrary cbindgen flags) are checked against what the stub cbindgen actually received and where the output landed.",
+         "same emulation of cbindgen output; headers with `Context`-generic items (which only real cbindgen runs produce) are outside the generated space",
+         "DESIGN.md 4/C18"),
 }
 NOT_YET = "check not built yet in this round (see DESIGN.md section 4 for the planned generator and oracle)"
 
@@ -132,6 +142,7 @@ def main():
 
 NA = {}
 ENGINES = [
+ {"name": "hdr", "path": "driver/hdr.py, driver/hdrrun.py", "serves_properties": ["C17","C18"], "kind_free_text": "API-model generator, cbindgen-shape emitter, stub cbindgen/rustup, mock-vtable C driver generator, argv-contract cases"},
  {"name": "c20pairs", "path": "driver/gen_c20.py", "serves_properties": ["C20"], "kind_free_text": "generated crate of definition/variant pairs built with layout_checks"},
  {"name": "expander", "path": "harness/expander, driver/gen_c03.py", "serves_properties": ["C03","C04"], "kind_free_text": "runs /repo's cglue_gen in-process as a library: structural oracle, emission of lint crates, struct/field digests for determinism"},
  {"name": "progbatch", "path": "driver/gen.py, driver/emit.py, driver/batch.py, harness/pbsupport", "serves_properties": ["C01","C02","C04","C06","C07","C13"], "kind_free_text": "grammar-based generator of cglue traits + stateful implementors + differential drivers, compiled per batch against /repo"},
